@@ -1,3 +1,73 @@
-(* C01 - placeholder: the binding-table soundness development is added below (DESIGN.md 7 C01). *)
-From DL Require Import Base Lexer Parser Eval Shape Dtypes Check Context.
-Example C01_placeholder : True. Proof. exact I. Qed.
+(* C01 - no false accepts: one consistent dimension assignment per checked context.
+   Whenever the model of a checked context (all arguments queued, asserted; the return value queued into the
+   same context, asserted) finishes without raising, the final binding table [table cF] is one assignment
+   - that contains the sizes supplied by the scope provider ([extends sc0]),
+   - under which every processed axis of every tensor is satisfied ([dim_sat]: a plain name, name=literal,
+     name=expression and every position b[i] of a *b group has the size the table gives its identifier; an
+     expression axis has the value of its postfix program, which by C05 is the arithmetic value [den]),
+   - every tensor passed the standalone check (rank, dtype, literal axes: C03),
+   - and every *b group stands for the same number of axes ([glens]) with the same sizes (positions b[i]).
+   No bound on the number of tensors, dims, or sizes. *)
+From DL Require Import Base Lexer Parser Eval Shape Dtypes Check Context Hints Call Grammar Denote LexPrint EvalCompile CtxSound CtxLift.
+
+Theorem C01_no_false_accept : forall sc0 its cF, items_wf its ->
+  run_ctx (ctx0 sc0) its = DOk cF ->
+  exists q, add_items its [] = DOk q /\ extends sc0 (table cF) /\ Forall (tensor_ok cF) q.
+Proof. exact run_ctx_sound. Qed.
+
+(* the function form: arguments and return value are one context *)
+Theorem C01_call_no_false_accept : forall w ps args v, wrapped_wf w ->
+  run_call w ps args (BReturn v) = (true, CReturned v) ->
+  exists sc0 qa qr cF,
+    initial_table (w_provider w) ps = DOk sc0 /\
+    add_args (w_params w) args [] = DOk qa /\
+    assert_context (ctx0 sc0) (qa ++ qr) = DOk cF /\
+    extends sc0 (table cF) /\ Forall (tensor_ok cF) (qa ++ qr) /\
+    match w_ret w with
+    | None => qr = []
+    | Some (it, anns) =>
+        match resolve_types anns with
+        | None => qr = []
+        | Some ra => exists vs, resolve_value it v = Ok vs /\ ctx_add "return" vs (Some ra) [] = DOk qr
+        end
+    end.
+Proof. exact run_call_sound. Qed.
+
+(* "no name is ever matched against two different sizes inside one context" *)
+Theorem C01_name_single_valued : forall sc d1 d2 s1 s2, dim_sat sc d1 s1 -> dim_sat sc d2 s2 ->
+  d_anon d1 = false -> d_anon d2 = false -> d_ident d1 = d_ident d2 ->
+  (d_literal d1 = false \/ isnumeric (d_ident d1) = false) -> (d_literal d2 = false \/ isnumeric (d_ident d2) = false) -> s1 = s2.
+Proof. exact same_ident_same_size. Qed.
+
+(* an accepted expression axis has the arithmetic value of its expression under the assignment *)
+Theorem C01_expression_axis_value : forall sc d s e, dim_sat sc d s -> d_anon d = false -> d_literal d = false ->
+  d_identifier d = false -> d_post d = compile e -> ops_ok e -> den e sc = Ok s.
+Proof.
+  intros sc d s e H Ha Hl Hi Hp Ho. destruct (H Ha) as (_ & _ & C).
+  rewrite <- (eval_compile_top e sc Ho), <- Hp. auto.
+Qed.
+(* every annotation the model can construct is covered by the theorems above *)
+Theorem C01_parsed_annotations_are_wf : forall s ty dts o, parse_shape s = Ok ty ->
+  annot_wf {| a_ty := ty; a_dtypes := dts; a_opt := o |}.
+Proof. intros s ty dts o H. unfold annot_wf. simpl. eapply parse_shape_dims_wf; eauto. Qed.
+
+(* non-vacuity and the three formerly accepted inconsistent contexts *)
+Definition ann (s:string) : option annot :=
+  match parse_shape s with Ok ty => Some {| a_ty := ty; a_dtypes := []; a_opt := false |} | Err _ => None end.
+Definition arr (l:list Z) : value := VArr {| x_lib := LNumpy; x_dt := KF32; x_shape := l |}.
+Definition ctx_of (sc0:scope) (l:list (string * string * list Z)) : dres ctx :=
+  run_ctx (ctx0 sc0) (map (fun p => (fst (fst p), [arr (snd p)], Some [ann (snd (fst p))])) l).
+Definition accepted (r:dres ctx) : bool := match r with DOk _ => true | _ => false end.
+Example accepts_consistent :
+  accepted (ctx_of [("k", 3%Z)] [("x", "*g a b=a+1", [7;8;2;3]); ("y", "k *g a*b", [3;7;8;6]); ("z", "c=2 ... b", [2;3])]%Z) = true.
+Proof. reflexivity. Qed.
+Example rejects_named_literal_then_name : accepted (ctx_of [] [("x", "b c=3", [2;3]); ("y", "b c", [2;5])]%Z) = false.
+Proof. reflexivity. Qed.
+Example rejects_group_prefix : accepted (ctx_of [] [("x", "*g c", [2;3;4]); ("y", "*g c", [2;4])]%Z) = false.
+Proof. reflexivity. Qed.
+Example rejects_bound_name_with_other_expression : accepted (ctx_of [] [("x", "a b", [2;3]); ("y", "b=a+2", [3])]%Z) = false.
+Proof. reflexivity. Qed.
+
+Redirect "C01.assumptions.1" Print Assumptions C01_no_false_accept.
+Redirect "C01.assumptions.2" Print Assumptions C01_call_no_false_accept.
+Redirect "C01.assumptions.3" Print Assumptions C01_expression_axis_value.
